@@ -12,7 +12,6 @@ open Sif Sif.Disp
 /-- state of family `rewards`: stored periods and accumulator, plus running totals for the
     cumulative predicate (entitlements computed by the model, amounts observed) -/
 structure RwSt where
-  fix : Bool := true            -- the model of the tree with fixes/F10.diff applied
   periods : List Sif.Rewards.Period := []
   accu : Nat := 0
   accu0 : Nat := 0
@@ -110,10 +109,15 @@ def handleRewards (st : IssueSt) : List String → Option (IssueSt × String)
   | ["rw.init", accu] => do
       let accu ← parseNat accu
       some ({ st with rw := { st.rw with accu := accu, accu0 := accu, entitledSoFar := 0 } }, "ok")
+  | "rw.edit" :: h :: rest => do
+      -- an accepted AddRewardPeriod message delivered in block h: the handler's accumulator rule
+      let h ← parseNat h
+      let ps ← parsePeriods rest
+      some ({ st with rw := { st.rw with periods := ps, accu := editAccu st.rw.periods ps h st.rw.accu } }, "ok")
   | ["rw.end", h, observed] => do
       let h ← parseNat h; let observed ← parseNat observed
       let env : Env := { active := true, raws := [observed], burned := 0 }
-      match endBlock st.rw.fix st.rw.periods h st.rw.accu env with
+      match endBlockR st.rw.periods h st.rw.accu env with
       | .ok (accu', m) =>
           let ent := Sif.Spec.C20.entitledAt st.rw.periods h
           some ({ st with rw := { st.rw with accu := accu', entitledSoFar := st.rw.entitledSoFar + ent } }, s!"accu={accu'} minted={m}")
